@@ -35,14 +35,15 @@ func (w *Worker) findSites() {
 	if json.Unmarshal(b, &sites) != nil {
 		return
 	}
+	// The hooks sit in the library, not in the front-end: every front-end has to call
+	// linter.(*Context).SetPackageInfo once per package before it analyses anything of it,
+	// whatever its own functions are called.
 	for _, s := range sites {
-		if s.Kind != "yield" || !strings.HasPrefix(s.Pos, "cmd/go-critic/") {
+		if s.Kind != "yield" || !strings.HasPrefix(s.Pos, "linter/") {
 			continue
 		}
 		switch s.Func {
-		case "*program.runCheckers":
-			w.siteRunCheckers = s.ID
-		case "*program.checkPackage":
+		case "*Context.SetPackageInfo":
 			w.siteCheckPackage = s.ID
 		}
 	}
@@ -91,9 +92,9 @@ func mirrorFiles(dst, src *token.FileSet, pkgs []*packages.Package) error {
 
 // runFrontEnd executes the real entry point of the check sub-command over the
 // given pre-loaded packages (in this order). sched == nil leaves the simulator's
-// scheduler off. onInit, if any, is called when the program enters its package
-// loop (configuration and checker construction are done, nothing has been
-// analysed yet).
+// scheduler off. The scheduler is switched on, and onInit called, when the program
+// hands its first package to the library (configuration and checker construction
+// are done, nothing has been analysed yet).
 func (w *Worker) runFrontEnd(args []string, corpus *Corpus, pkgs []*packages.Package, sched *simrt.SchedConfig, onInit func()) (out feOutcome) {
 	served := false
 	serve := func(cfg *packages.Config) ([]*packages.Package, error) {
@@ -129,9 +130,6 @@ func (w *Worker) runFrontEnd(args []string, corpus *Corpus, pkgs []*packages.Pac
 			}
 		}
 	}
-	if w.siteRunCheckers >= 0 {
-		simrt.OnSite(w.siteRunCheckers, start)
-	}
 	if w.siteCheckPackage >= 0 {
 		out.Attributed = true
 		simrt.OnSite(w.siteCheckPackage, func() {
@@ -141,8 +139,8 @@ func (w *Worker) runFrontEnd(args []string, corpus *Corpus, pkgs []*packages.Pac
 	} else {
 		w.sink.visit = 0
 	}
-	if w.siteRunCheckers < 0 && w.siteCheckPackage < 0 {
-		start() // this tree has neither function: simulate the whole entry point
+	if w.siteCheckPackage < 0 {
+		start() // the library no longer has that function: simulate the whole entry point
 	}
 	defer func() {
 		simrt.LoaderHooks, simrt.ExitHook, simrt.LoaderMismatch = nil, nil, nil
